@@ -197,7 +197,7 @@ func init() {
 		})
 		// (ii) window layer
 		type wcase struct {
-			off, high int
+			off, high    int
 			marker, tail string
 		}
 		var wcases []wcase
